@@ -7,6 +7,7 @@ Imports Model/Proto files only (core Lean), never proof files.
 import SyslModel.Core.Proto
 import SyslModel.Path.Proto
 import SyslModel.Closure.Proto
+import SyslModel.Indent.Proto
 
 open Lean (Json)
 open SyslModel
@@ -14,6 +15,7 @@ open SyslModel
 def dispatch (op : String) (j : Json) : Option Json :=
   if op.startsWith "path." then Path.handle op j
   else if op.startsWith "closure." then Closure.handle op j
+  else if op.startsWith "indent." then Indent.handle op j
   else none
 
 def handleLine (line : String) : String :=
